@@ -14,26 +14,48 @@ var LibLog = os.Getenv("SIM_LIBLOG") != ""
 type simLogger struct {
 	s     *Sim
 	scope string
+	f     *simLoggerFactory
 }
 
-func (l *simLogger) rec(level, msg string) { l.s.Record("log", l.scope, level+" "+msg, nil) }
+func (l *simLogger) rec(level, msg string) {
+	if LibLog {
+		l.s.Record("log", l.scope, level+" "+msg, nil)
+	}
+}
 
-func (l *simLogger) Trace(msg string)                  { l.rec("TRACE", msg) }
-func (l *simLogger) Tracef(f string, a ...interface{}) { l.rec("TRACE", fmt.Sprintf(f, a...)) }
-func (l *simLogger) Debug(msg string)                  { l.rec("DEBUG", msg) }
-func (l *simLogger) Debugf(f string, a ...interface{}) { l.rec("DEBUG", fmt.Sprintf(f, a...)) }
-func (l *simLogger) Info(msg string)                   { l.rec("INFO", msg) }
-func (l *simLogger) Infof(f string, a ...interface{})  { l.rec("INFO", fmt.Sprintf(f, a...)) }
-func (l *simLogger) Warn(msg string)                   { l.rec("WARN", msg) }
-func (l *simLogger) Warnf(f string, a ...interface{})  { l.rec("WARN", fmt.Sprintf(f, a...)) }
-func (l *simLogger) Error(msg string)                  { l.rec("ERROR", msg) }
-func (l *simLogger) Errorf(f string, a ...interface{}) { l.rec("ERROR", fmt.Sprintf(f, a...)) }
+func (l *simLogger) Trace(msg string) { l.rec("TRACE", msg) }
+func (l *simLogger) Tracef(f string, a ...interface{}) {
+	// FSM state lines: "[handshake:%s] %s: %s" / "[handshake13:%s] %s: %s"
+	if len(a) == 3 && (f == "[handshake:%s] %s: %s" || f == "[handshake13:%s] %s: %s") {
+		l.f.fsm = fmt.Sprint(a[1]) + "/" + fmt.Sprint(a[2])
+	}
+	if LibLog {
+		l.rec("TRACE", fmt.Sprintf(f, a...))
+	}
+}
+func (l *simLogger) Debug(msg string) { l.rec("DEBUG", msg) }
+func (l *simLogger) Debugf(f string, a ...interface{}) {
+	if LibLog {
+		l.rec("DEBUG", fmt.Sprintf(f, a...))
+	}
+}
+func (l *simLogger) Info(msg string)                  { l.rec("INFO", msg) }
+func (l *simLogger) Infof(f string, a ...interface{}) { l.rec("INFO", fmt.Sprintf(f, a...)) }
+func (l *simLogger) Warn(msg string)                  { l.rec("WARN", msg) }
+func (l *simLogger) Warnf(f string, a ...interface{}) { l.rec("WARN", fmt.Sprintf(f, a...)) }
+func (l *simLogger) Error(msg string)                 { l.rec("ERROR", msg) }
+func (l *simLogger) Errorf(f string, a ...interface{}) {
+	if LibLog {
+		l.rec("ERROR", fmt.Sprintf(f, a...))
+	}
+}
 
 type simLoggerFactory struct {
 	s    *Sim
 	name string
+	fsm  string // last FSM "<flight>/<state>" trace line of this endpoint
 }
 
 func (f *simLoggerFactory) NewLogger(scope string) logging.LeveledLogger {
-	return &simLogger{s: f.s, scope: f.name + "/" + scope}
+	return &simLogger{s: f.s, scope: f.name + "/" + scope, f: f}
 }
